@@ -121,15 +121,17 @@ def fc_seq(maxmem: int, o1: int, o2: int, o3: int, o4: int, o5: int, s0: int, s1
 
 VALUES = [1, "a longer string value", [1, "s", {"k": 3}]]
 KEYS = ["a", "d/b", "never"]
+NESTED_UNDER_FILE = "a/x"      # a key whose directory part is another key's FILE: its set must fail cleanly
 
 
 def kvs_seq(o1: int, o2: int, o3: int, o4: int, o5: int, v1: int, v2: int, v3: int, v4: int, v5: int) -> bool:
     """
-    pre: 0 <= o1 <= 6 and 0 <= o2 <= 6 and 0 <= o3 <= 6 and 0 <= o4 <= 6 and 0 <= o5 <= 6
+    pre: 0 <= o1 <= 7 and 0 <= o2 <= 7 and 0 <= o3 <= 7 and 0 <= o4 <= 7 and 0 <= o5 <= 7
     pre: 0 <= v1 <= 2 and 0 <= v2 <= 2 and 0 <= v3 <= 2 and 0 <= v4 <= 2 and 0 <= v5 <= 2
     post: _
     """
     # op: 0/1 set key a / d/b ; 2/3/4 get a / d/b / never ; 5 reopen the store ; 6 set through __setitem__ + get through __getitem__
+    # 7 set the key a/x (its directory is the FILE of key a, if a was set): fails in the file system; nothing else may change
     enter()
     n = cfg("steps", 3)
     maxmem = cfg("maxmem", 40)        # small enough that two values do not always fit: forces evictions
@@ -139,19 +141,40 @@ def kvs_seq(o1: int, o2: int, o3: int, o4: int, o5: int, v1: int, v2: int, v3: i
         for i, f in enumerate(first):
             ops[i] = f
     fs = M.ModelFS(); M.install(FC, fs)
+    touched = []
+    fs.hook = lambda op, path: touched.append(path) if op in ("open-w", "rename", "unlink", "flush") else None
     try:
         st = KVS.KeyValueStorage("/", max_memory=maxmem)
         model = {}
         for i in range(n):
             o = ops[i]
-            if o <= 1 or o == 6:
+            if o == 7:
+                # a set that cannot succeed (directory component is a regular file) or that creates the directory a/ when a
+                # was never set: either way accounting and every other key stay as they were
+                try:
+                    st.set(NESTED_UNDER_FILE, 5)
+                    if "a" in model:
+                        return verdict(False)           # it cannot have been stored: /a is a file
+                    model[NESTED_UNDER_FILE] = 5
+                except (OSError, MemoryError):
+                    if "a" not in model:
+                        return verdict(False)
+                    # the failed entry must not stay behind as a phantom
+            elif o <= 1 or o == 6:
                 k = pick(KEYS, o) if o <= 1 else KEYS[0]
+                if k == "a" and NESTED_UNDER_FILE in model:
+                    continue                            # /a is a directory now: outside this obligation
                 v = _copy.deepcopy(pick(VALUES, vals[i]))
                 model[k] = _copy.deepcopy(v)
+                del touched[:]
                 if o == 6:
                     st[k] = v
                 else:
                     st.set(k, v)
+                # footprint: keys ARE file names, so a set may create / truncate / rename / remove only its own file
+                for pth in touched:
+                    if pth != "/" + k:
+                        return verdict(False)
                 if isinstance(v, list):
                     v.append("changed by the caller after the set")       # the store holds the value as it was when set
             elif o <= 4:
@@ -170,12 +193,16 @@ def kvs_seq(o1: int, o2: int, o3: int, o4: int, o5: int, v1: int, v2: int, v3: i
             tot = 0
             for name, info in c.file_futures.items():
                 if info[0]:
+                    if name == NESTED_UNDER_FILE and info[2].done():
+                        continue                        # the entry of a write that failed keeps its (uncounted) claim: see OUTSIDE
                     return verdict(False)
                 tot = tot + info[1]
             if c.current_memory_usage != tot or tot < 0 or tot > c.max_memory:
                 return verdict(False)
             # every key, after every step
             for k in KEYS:
+                if k == "a" and NESTED_UNDER_FILE in model:
+                    continue
                 r = st[k]
                 if k in model:
                     if r != model[k]:
@@ -189,6 +216,19 @@ def kvs_seq(o1: int, o2: int, o3: int, o4: int, o5: int, v1: int, v2: int, v3: i
         M.uninstall(FC)
 
 
+def key_mapping(k1: str, k2: str) -> bool:
+    """
+    pre: len(k1) <= 3 and len(k2) <= 3
+    post: _
+    """
+    # "other keys are unaffected" needs distinct keys to live in distinct files: the key -> file-name mapping is injective
+    enter()
+    from klongpy.db.helpers import key_to_file_path
+    if k1 == k2:
+        return True
+    return verdict(key_to_file_path(k1) != key_to_file_path(k2))
+
+
 def bounds(tier):
     q = tier == "quick"
     return {"steps": 3 if q else 5, "files/keys": "2 files (one in a sub-directory) / 3 keys (one never set)",
@@ -199,18 +239,19 @@ def bounds(tier):
 def obligations(tier):
     q = tier == "quick"
     obs = []
+    obs.append({"name": "key -> file name mapping is injective (any two strings of length <= 3)", "fn": "key_mapping", "cfg": {}, "timeout": 120})
     if q:
         for f in range(8):
             obs.append({"name": "filecache 3 steps first=%d" % f, "fn": "fc_seq", "cfg": {"steps": 3, "first": [f]}, "timeout": 240})
         for mm in (40, 200):
-            for f in range(7):
+            for f in range(8):
                 obs.append({"name": "kvs 3 steps maxmem=%d first=%d" % (mm, f), "fn": "kvs_seq", "cfg": {"steps": 3, "maxmem": mm, "first": [f]}, "timeout": 240})
     else:
         for f in range(8):
             for g in range(8):
                 obs.append({"name": "filecache 4 steps first=%d,%d" % (f, g), "fn": "fc_seq", "cfg": {"steps": 4, "first": [f, g]}, "timeout": 900})
         for mm in (40, 200):
-            for f in range(7):
+            for f in range(8):
                 for g in range(7):
                     obs.append({"name": "kvs 4 steps maxmem=%d first=%d,%d" % (mm, f, g), "fn": "kvs_seq", "cfg": {"steps": 4, "maxmem": mm, "first": [f, g]}, "timeout": 900})
     return obs
